@@ -1,0 +1,19 @@
+//go:build verif
+
+// Contracts for package cert, checked by /verif/govc (comment-only file).
+package cert
+
+//@ pred awf(c *Authority) = c.config != nil && c.Base != nil && c.blockchain != nil && blockchain.binv(c.blockchain) && blockchain.bmaps(c.blockchain) && c.blockchain.sender != nil && c.blockchain.eventLoop != nil
+//@ pure func quorum(c *Authority) int = hotstuff.Q(len(c.config.replicas))
+//@ pure func isGenesisHash(h hotstuff.Hash) bool = h == hotstuff.genesisBlock.hash
+
+// Accepted quorum certificates: a quorum of participants, the certified block is known and
+// carries the view the certificate claims, and every participant's signature is valid over
+// exactly that block's bytes.
+//@ func (*Authority).VerifyQuorumCert property C02
+//@   requires awf(c) && hotstuff.genesisBlock != nil
+//@   ensures [quorum] result == nil && !isGenesisHash(qc.hash) ==> qc.signature != nil && hotstuff.setlen(hotstuff.parts(qc.signature)) >= quorum(c)
+//@   ensures [content] result == nil && !isGenesisHash(qc.hash) ==> has(c.blockchain.blocks, qc.hash) && (forall id hotstuff.ID :: hotstuff.setmem(hotstuff.parts(qc.signature), id) ==> crypto.sigvalid(c.Base, qc.signature, id, hotstuff.blockcontent(c.blockchain.blocks[qc.hash])))
+//@   ensures [view-bound] result == nil && !isGenesisHash(qc.hash) ==> c.blockchain.blocks[qc.hash].view == qc.view
+//@   ensures [inv] blockchain.binv(c.blockchain) && blockchain.bmaps(c.blockchain)
+//@   modifies c.blockchain.blocks[*], c.blockchain.blockAtHeight[*], c.blockchain.pendingFetch[*], c.blockchain.eventLoop.handlers[*], alloc
